@@ -94,7 +94,9 @@ def admissible (op : String) (hasVid : Bool) (directStatus : String) : List Stri
     let ms := methodsOfOp op
     let kinds : List Err :=
       if op == "get" then
-        if hasVid then roundTrip t "GetObject" false e ++ roundTrip t "HeadObject" true .noSuchKey
+        if hasVid && Gen.S3ClientMap.getObjectHeadOptions == "nil" then
+          -- the pre-flight looks at the current version: it may pass (then GetObject itself fails) or hit a 404
+          roundTrip t "GetObject" false e ++ roundTrip t "HeadObject" true .noSuchKey
         else roundTrip t "HeadObject" true e
       else ms.flatMap fun (m, h) => roundTrip t m h e
     kinds.map (·.toString)
